@@ -566,6 +566,36 @@ func Grammar(tier string, v2 bool) []GrammarItem {
 			x2.Fields = []*Field{Opt("other", x1)}
 			return []*Type{x1, x2}
 		})
+		if v2 {
+			// rename attempts beyond the first: the clashing types' namespaces share their last segment(s)
+			// (v2 only: the root generator already fails the simpler clash-on-cycle sets, see known findings)
+			mk("clash-cycle-same-suffix", "clashing names on a cycle whose namespaces end in the same segment (second rename attempt)", func(u *Universe) []*Type {
+				x1 := u.AddNS("g.a.x", rec("Foo"))
+				x2 := u.AddNS("g.b.x", rec("Foo"))
+				x1.Fields = []*Field{Opt("other", x2), Req("v", P(Int32))}
+				x2.Fields = []*Field{Opt("other", x1)}
+				user := u.AddNS("g.c", rec("Holder", Req("a", x1), Req("b", x2)))
+				return []*Type{user}
+			})
+			mk("clash-cycle-mixed-depth", "clashing names on a cycle, one namespace being a suffix of the other", func(u *Universe) []*Type {
+				x1 := u.AddNS("g.a.x", rec("Foo"))
+				x2 := u.AddNS("x", rec("Foo"))
+				x1.Fields = []*Field{Opt("other", x2), Req("v", P(Int32))}
+				x2.Fields = []*Field{Opt("other", x1)}
+				user := u.AddNS("g.c", rec("Holder", Req("a", x1), Req("b", x2)))
+				return []*Type{user}
+			})
+			mk("clash-cycle-deep-suffix", "three clashing names on a cycle whose namespaces share their last two segments (third rename attempt)", func(u *Universe) []*Type {
+				x1 := u.AddNS("g.a.m.x", rec("Foo"))
+				x2 := u.AddNS("g.b.m.x", rec("Foo"))
+				x3 := u.AddNS("g.c.n.x", rec("Foo"))
+				x1.Fields = []*Field{Opt("next", x2)}
+				x2.Fields = []*Field{Opt("next", x3)}
+				x3.Fields = []*Field{Opt("next", x1), Req("v", P(Int32))}
+				user := u.AddNS("g.c", rec("Holder", Req("a", x1), Req("b", x2), Req("c", x3)))
+				return []*Type{user}
+			})
+		}
 		mk("clash-resource", "a resource whose entity, key record and action types share one name across namespaces", func(u *Universe) []*Type {
 			x1 := u.AddNS("g.left", rec("X", Req("l", P(Int32))))
 			x2 := u.AddNS("g.right", rec("X", Req("r", P(String))))
